@@ -9,10 +9,10 @@ CONSTANTS NA = 2
           MaxSnap = 3
           MaxTx = 4
           Ops = {"BeginTx", "AddBalance", "SubBalance", "SetBalance", "SetNonce", "SetCode", "SetState", "SelfDestruct", "CreateAccount", "EvmCreate", "ReadAccount", "ReadSlot", "Snapshot", "Revert", "Finalise"}
-          BaseKinds = {0, 1, 2, 3, 4}
+          BaseKinds = {0, 2, 3, 4}
           KeepHist = TRUE
           HistLen = 32
           TxEvery = 8
-INVARIANTS MechanismIsNetDiff InvBAL InvFunctional InvFeasible InvFrames
+INVARIANTS MechanismIsNetDiff InvBAL InvFunctional InvFeasible InvFrames InvNoEmpty
 CONSTRAINT Emit
 CHECK_DEADLOCK FALSE
